@@ -50,6 +50,21 @@ CHECKS = {
         note="Same bounds as C01; post-solve objects: all results of <= 2 operations over <= 4 held points and <= 3 "
              "held expressions on a sub-family of the cases (every 3rd / 10th case in quick).",
     ),
+    "C04": dict(
+        category="model_checking",
+        technique="explicit enumeration of all declaration histories <= 3 (4) per class and parameter tuple on the real classes; "
+                  "generated constraint systems compared as normalised functionals / LMIs with the documented conditions "
+                  "instantiated by sample identity; syntactic differences decided by implication SDPs",
+        text="Every interleaving of evaluations, repeated evaluations, evaluations at combinations, stationary points (direct, "
+             "through a multiple of the function, or added by hand), fixed points, adjoint evaluations and displacement "
+             "vectors up to the length bound is replayed; the generated system must be equivalent to the reference conditions "
+             "on every required pair / tuple of the recorded samples - no pair skipped, nothing weakened, whatever the order - "
+             "also after the parameters of the same object were changed and the constraints regenerated. Per class the solved "
+             "value with the stationary point declared first vs last must agree.",
+        note="Reference conditions: mc/catalog/conditions.py (transcribed from the class docstrings / cited theorems). LMIs are "
+             "compared up to symmetrisation and scaling. The clause 'a finite primal value is attained by a real member' needs "
+             "an interpolating construction and is not decided here.",
+    ),
     "C05": dict(
         category="model_checking",
         technique="exhaustive enumeration of all expression shapes (5^9 coefficient dictionaries) through both encoders + "
